@@ -22,7 +22,9 @@
   Not proved: texts with \n / \t escapes next to line breaks (the RFC leaves their order open) — held by stream yarg
   (value × quoting × layout triples on the real parser, compared with model and with `Spec.decodeArg`).
   The order of trimming and substitution is not fixed by RFC 6020: texts with \n/\t escapes next to real or
-  escaped line breaks are compared implementation-vs-model only (Spec.orderSensitive).
+  escaped line breaks are compared implementation-vs-model only (Spec.orderSensitive), and so are texts with
+  the pair \r (substituted by the code, not an escape of RFC 6020); every other backslash pair stays as it is,
+  in the specification as in the code.
 -/
 import YV.Proofs.YArg
 import YV.Proofs.YLayout
